@@ -61,10 +61,10 @@ from fsic.exceptions import ParserError, SymbolError
 
 OWN = (ParserError, SymbolError, IndentationError)
 
-MEMBERS = {'L': 'Abet', '1': '1', 'n': '\n', '+': '+-*/', 'x': 'é', "'": "'"}
+MEMBERS = {'L': 'Abet', '1': '1', 'n': '\n', '+': '+-*/', 'x': 'é\\', "'": "'"}      # class x: characters with no role in the splitter (a letter outside ASCII, the backslash)
 for _c in '_ =()[]{}<>`#.,':
     MEMBERS[_c] = _c
-assert len(MEMBERS) == 21 and sum(len(v) for v in MEMBERS.values()) == 27
+assert len(MEMBERS) == 21 and sum(len(v) for v in MEMBERS.values()) == 28
 
 
 def abstract(text: str) -> str:
